@@ -35,8 +35,101 @@ func init() {
 }
 
 // doneBranchBlocks: blocks dominated by the edge on which a non-blocking select chose a Done() case.
+// donePredicate: a small function returning one bool whose value tells whether a Done() channel fired: every return on
+// a branch entered by a Done() receive returns the constant `when`, every other return the opposite constant.
+func donePredicate(fn *ssa.Function) (when bool, ok bool) {
+	if fn == nil || fn.Blocks == nil || fn.Signature.Results().Len() != 1 {
+		return false, false
+	}
+	if b, isB := fn.Signature.Results().At(0).Type().Underlying().(*types.Basic); !isB || b.Kind() != types.Bool {
+		return false, false
+	}
+	heads := map[*ssa.BasicBlock]bool{}
+	allInstrs(fn, func(ins ssa.Instruction) {
+		if sel, isSel := ins.(*ssa.Select); isSel {
+			for i, st := range sel.States {
+				if st.Dir == types.RecvOnly {
+					if _, isDone := doneLike(st.Chan); isDone {
+						if sb := selectStateBlock(sel, i); sb != nil {
+							heads[sb] = true
+						}
+					}
+				}
+			}
+		}
+	})
+	if len(heads) == 0 {
+		return false, false
+	}
+	var doneVals, otherVals []string
+	for _, b := range fn.Blocks {
+		ret, isRet := b.Instrs[len(b.Instrs)-1].(*ssa.Return)
+		if !isRet || b == fn.Recover {
+			continue
+		}
+		rs := retResults(ret)
+		k, isK := rs[0].(*ssa.Const)
+		if !isK || k.Value == nil {
+			return false, false
+		}
+		under := false
+		for h := range heads {
+			if h == b || h.Dominates(b) {
+				under = true
+			}
+		}
+		if under {
+			doneVals = append(doneVals, k.Value.String())
+		} else {
+			otherVals = append(otherVals, k.Value.String())
+		}
+	}
+	if len(doneVals) == 0 || len(otherVals) == 0 {
+		return false, false
+	}
+	for _, v := range doneVals {
+		if v != doneVals[0] {
+			return false, false
+		}
+	}
+	for _, v := range otherVals {
+		if v == doneVals[0] {
+			return false, false
+		}
+	}
+	return doneVals[0] == "true", true
+}
+
 func doneBranchHeads(fn *ssa.Function) []*ssa.BasicBlock {
 	var out []*ssa.BasicBlock
+	// `if x.isDone() { … }` / `if !x.waitTick(c) { … }`: a helper that reports whether a Done() channel fired
+	allInstrs(fn, func(ins ssa.Instruction) {
+		ifs, ok := ins.(*ssa.If)
+		if !ok {
+			return
+		}
+		cond, neg := ifs.Cond, false
+		for {
+			if u, isU := cond.(*ssa.UnOp); isU && u.Op == token.NOT {
+				cond, neg = u.X, !neg
+				continue
+			}
+			break
+		}
+		c, isCall := cond.(*ssa.Call)
+		if !isCall {
+			return
+		}
+		when, isPred := donePredicate(c.Call.StaticCallee())
+		if !isPred {
+			return
+		}
+		if when != neg {
+			out = append(out, ifs.Block().Succs[0])
+		} else {
+			out = append(out, ifs.Block().Succs[1])
+		}
+	})
 	// `if ctx.Err() != nil { … }`: the true edge is a done branch as well
 	allInstrs(fn, func(ins ssa.Instruction) {
 		ifs, ok := ins.(*ssa.If)
